@@ -105,7 +105,9 @@ class ImplRunner:
             return "ok unit"
         if k == "ins":
             m = self._meas(t[1])
-            pts = [V.build_point(p, tf) for p in t[2:]]
+            # MemoryStorage keeps the caller's objects: sometimes they are instances of a subclass of Point
+            cls = V.point_subclass(tf) if (self.cfg[0] == "mem" and len(repr(t)) % 7 == 3) else None
+            pts = [V.build_point(p, tf, cls) for p in t[2:]]
             now = [p[1] for p in t[2:] if not isinstance(p, str) and p[1].startswith("now:")]
             bad = [x for x in t[2:] if isinstance(x, str) and x.startswith("!")]
 
@@ -232,15 +234,22 @@ class ImplRunner:
             uf = V.unset_arg(t[9])
             if uf is not None:
                 kw["unset_fields"] = uf[0] if len(uf) == 1 and self._single_insert(t) else uf
+            positional = len(repr(t)) % 3 == 1
+            order = ("time", "measurement", "tags", "fields", "unset_fields", "unset_tags")   # the documented order
+            pos = tuple(kw.get(k) for k in order)
             if via:
                 h = db.measurement(m)
-                n = h.update_all(**kw) if q == ["noop", "meas"] else h.update(Q(q), **kw)
+                if q == ["noop", "meas"]:
+                    n = h.update_all(*pos) if positional else h.update_all(**kw)
+                else:
+                    n = h.update(Q(q), *pos) if positional else h.update(Q(q), **kw)
             elif all_:
-                n = db.update_all(**kw)
+                n = db.update_all(*pos) if positional else db.update_all(**kw)
             else:
                 if m is not None:
-                    kw["_measurement"] = m
-                n = db.update(Q(q), **kw)
+                    n = db.update(Q(q), *pos, m) if positional else db.update(Q(q), _measurement=m, **kw)
+                else:
+                    n = db.update(Q(q), *pos) if positional else db.update(Q(q), **kw)
             return f"ok {n}"
         if k == "reindex":
             import contextlib
